@@ -147,7 +147,15 @@ func (r *c09Run) tryNext(i int) error {
 	mustLose := firstUnexamined < r.trimmed && firstUnexamined < len(r.full)
 	mayLose := s.pos >= 0 && s.pos < r.trimmed
 	if !ok {
-		err := s.stream.Err()
+		errc := make(chan error, 1)
+		go func() { errc <- s.stream.Err() }()
+		var err error
+		select {
+		case err = <-errc:
+		case <-time.After(tLive):
+			s.ignore, s.done = true, true
+			return fmt.Errorf("stream %d: TryNext returned false and Err() has not returned within %v: the consumer stalls instead of learning what happened (position %d, %d events discarded)", i, tLive, s.pos, r.trimmed)
+		}
 		if err == lungo.ErrLostOplogPosition {
 			if mustLose || mayLose {
 				s.done = true
